@@ -234,36 +234,53 @@ def isResponse (self other : Msg) : Bool :=
 
 /-! ## what the parser makes of a datagram -/
 
-/-- Abstract content of a datagram / framed message, from the parser's point of view. -/
-inductive Wire where
-  /-- fewer than 12 octets: `ShortHeader` -/
-  | short
-  /-- header parsed, then the body raised; `part` is the message as built so far;
-      `formErr` says whether the exception is in the `FormError` family -/
-  | broken (part : Msg) (formErr : Bool)
-  /-- all sections parsed; `trailing` = octets remain after the last section -/
-  | full (m : Msg) (trailing : Bool)
+/-- What the message reader finds *after* the 12-octet header (the reader itself is C03/C04's subject). -/
+structure Body where
+  question : List QEntry
+  ednsflags : Nat
+  /-- `none`: every section was parsed; `some fe`: the body raised, and `fe` says whether the exception is in
+      the `FormError` family; `question` / `ednsflags` are then the message as built so far -/
+  broken : Option Bool
+  /-- octets remain after the last section -/
+  trailing : Bool
   deriving DecidableEq, Repr
+
+/-- A datagram / framed message: its octets, and what the reader finds after the header. -/
+structure Wire where
+  octets : Bytes
+  body : Body
+  deriving DecidableEq, Repr
+
+/-- big-endian value of an octet string (`struct.unpack("!H", …)` on two octets) -/
+def beVal (b : Bytes) : Nat := b.foldl (fun a x => a * 256 + x) 0
+
+/-- `_WireReader.read`: `ShortHeader` below 12 octets, else `id` and `flags` are the first two big-endian
+16-bit fields of the octets -/
+def header (b : Bytes) : Option (Nat × Nat) :=
+  if b.length < 12 then none else some (beVal (b.take 2), beVal ((b.drop 2).take 2))
 
 inductive PErr where
   | formError | other | truncated (m : Msg)
   deriving DecidableEq, Repr
 
-/-- `dns.message.from_wire(wire, ignore_trailing=…, raise_on_truncation=…, continue_on_error=…)` on an
-abstract datagram.  With `continue_on_error` the reader swallows every exception raised after the header
+/-- `dns.message.from_wire(wire, ignore_trailing=…, raise_on_truncation=…, continue_on_error=…)`.
+With `continue_on_error` the reader swallows every exception raised after the header
 and hands back the message as built so far. -/
 def fromWire (w : Wire) (ignoreTrailing raiseOnTruncation : Bool) (contOnErr : Bool := false) : Except PErr Msg :=
-  match w with
-  | .short => .error .formError
-  | .broken p fe =>
-    if contOnErr then (if tc p.flags && raiseOnTruncation then .error (.truncated p) else .ok p)
-    else if fe then (if tc p.flags && raiseOnTruncation then .error (.truncated p) else .error .formError)
-    else .error .other
-  | .full m trailing =>
-    if trailing && !ignoreTrailing && !contOnErr then
-      (if tc m.flags && raiseOnTruncation then .error (.truncated m) else .error .formError)
-    else if tc m.flags && raiseOnTruncation then .error (.truncated m)
-    else .ok m
+  match header w.octets with
+  | none => .error .formError
+  | some (id, flags) =>
+    let m : Msg := ⟨id, flags, w.body.ednsflags, w.body.question⟩
+    match w.body.broken with
+    | some fe =>
+      if contOnErr then (if tc flags && raiseOnTruncation then .error (.truncated m) else .ok m)
+      else if fe then (if tc flags && raiseOnTruncation then .error (.truncated m) else .error .formError)
+      else .error .other
+    | none =>
+      if w.body.trailing && !ignoreTrailing && !contOnErr then
+        (if tc flags && raiseOnTruncation then .error (.truncated m) else .error .formError)
+      else if tc flags && raiseOnTruncation then .error (.truncated m)
+      else .ok m
 
 /-! ## waiting -/
 
@@ -276,6 +293,12 @@ def waitFor (exp : Option Nat) (now dt : Nat) : Except Err Nat :=
 
 /-- what happens when the script has nothing more to offer: wait for ever, or until the deadline -/
 def starved (exp : Option Nat) : Err := if exp.isSome then .timeout else .exhausted
+
+/-- the clock when a wait gives up: the deadline (or now, if it had already passed) -/
+def giveUpClock (exp : Option Nat) (now : Nat) : Nat :=
+  match exp with
+  | none => now
+  | some e => if e ≤ now then now else e
 
 /-! ## UDP -/
 
@@ -296,6 +319,8 @@ structure Fail where
   err : Err
   /-- number of datagrams taken from the socket when the exception was raised -/
   idx : Nat
+  /-- the clock when it was raised -/
+  now : Nat
   deriving DecidableEq, Repr
 
 structure URet where
@@ -310,41 +335,45 @@ structure URet where
 def rejects (ignoreErrors : Bool) (query : Option Msg) (m : Msg) : Bool :=
   ignoreErrors && (match query with | some q => !isResponse q m | none => false)
 
-/-- `receive_udp` (with `_udp_recv` inlined): one script event per step.
-`coe` = the parser is called with `continue_on_error=ignore_errors` (what `dns.asyncquery.receive_udp`
-does as shipped); `dns.query.receive_udp` is `coe = false`. -/
+/-- what `receive_udp` does with one datagram it has just taken from the socket (shared by `dns.query` and
+`dns.asyncquery`, whose loop bodies are the same text): pass over it, raise, or return it -/
+inductive Verdict where
+  | skip | raise (e : Err) | accept (m : Msg)
+  deriving DecidableEq, Repr
+
+def judge (coe : Bool) (af : Nat) (dest : Option Addr) (o : UOpts) (query : Option Msg) (src : Addr) (w : Wire) : Verdict :=
+  match matchesDestination af src dest o.ignoreUnexpected with
+  | .error e => .raise e
+  | .ok false => .skip
+  | .ok true =>
+    match fromWire w o.ignoreTrailing o.raiseOnTruncation (coe && o.ignoreErrors) with
+    | .error (.truncated pm) => if rejects o.ignoreErrors query pm then .skip else .raise .truncated
+    | .error .formError => if o.ignoreErrors then .skip else .raise .formError
+    | .error .other => if o.ignoreErrors then .skip else .raise .otherParse
+    | .ok r => if rejects o.ignoreErrors query r then .skip else .accept r
+
+/-- `dns.query.receive_udp` (with `_udp_recv` inlined): one script event per step.
+`coe` = the parser is called with `continue_on_error=ignore_errors` (what `dns.asyncquery.receive_udp` did
+before repair 3f2b73a); the code as it is now is `coe = false`. -/
 def receiveUdp (coe : Bool) (af : Nat) (dest : Option Addr) (exp : Option Nat) (o : UOpts) (query : Option Msg) :
     List UEv → Nat → Nat → Except Fail URet
-  | [], _, idx => .error ⟨starved exp, idx⟩
+  | [], now, idx => .error ⟨starved exp, idx, giveUpClock exp now⟩
   | .block dt :: rest, now, idx =>
     match waitFor exp now dt with
-    | .error e => .error ⟨e, idx⟩
+    | .error e => .error ⟨e, idx, giveUpClock exp now⟩
     | .ok now' => receiveUdp coe af dest exp o query rest now' idx
   | .dgram src w :: rest, now, idx =>
-    match matchesDestination af src dest o.ignoreUnexpected with
-    | .error e => .error ⟨e, idx + 1⟩
-    | .ok false => receiveUdp coe af dest exp o query rest now (idx + 1)
-    | .ok true =>
-      match fromWire w o.ignoreTrailing o.raiseOnTruncation (coe && o.ignoreErrors) with
-      | .error (.truncated pm) =>
-        if rejects o.ignoreErrors query pm then receiveUdp coe af dest exp o query rest now (idx + 1)
-        else .error ⟨.truncated, idx + 1⟩
-      | .error .formError =>
-        if o.ignoreErrors then receiveUdp coe af dest exp o query rest now (idx + 1)
-        else .error ⟨.formError, idx + 1⟩
-      | .error .other =>
-        if o.ignoreErrors then receiveUdp coe af dest exp o query rest now (idx + 1)
-        else .error ⟨.otherParse, idx + 1⟩
-      | .ok r =>
-        if rejects o.ignoreErrors query r then receiveUdp coe af dest exp o query rest now (idx + 1)
-        else .ok ⟨idx, r, src, now⟩
+    match judge coe af dest o query src w with
+    | .raise e => .error ⟨e, idx + 1, now⟩
+    | .skip => receiveUdp coe af dest exp o query rest now (idx + 1)
+    | .accept r => .ok ⟨idx, r, src, now⟩
 
 /-- `_udp_send`: `sendto` raises `BlockingIOError` once per entry of `blocks`, then succeeds -/
-def udpSend (exp : Option Nat) : List Nat → Nat → Except Err Nat
+def udpSend (exp : Option Nat) : List Nat → Nat → Except (Err × Nat) Nat
   | [], now => .ok now
   | dt :: rest, now =>
     match waitFor exp now dt with
-    | .error e => .error e
+    | .error e => .error (e, giveUpClock exp now)
     | .ok now' => udpSend exp rest now'
 
 /-- `_compute_times` -/
@@ -355,12 +384,12 @@ def udp (coe : Bool) (q : Msg) (af : Nat) (dest : Addr) (timeout : Option Nat) (
     (sendBlocks : List Nat) (script : List UEv) (now : Nat) : Except Fail URet :=
   let exp := expiration timeout now
   match udpSend exp sendBlocks now with
-  | .error e => .error ⟨e, 0⟩
+  | .error (e, t) => .error ⟨e, 0, t⟩
   | .ok now1 =>
     match receiveUdp coe af (some dest) exp o (some q) script now1 0 with
     | .error f => .error f
     | .ok r =>
-      if !(o.ignoreErrors || isResponse q r.msg) then .error ⟨.badResponse, r.idx + 1⟩
+      if !(o.ignoreErrors || isResponse q r.msg) then .error ⟨.badResponse, r.idx + 1, r.recvTime⟩
       else .ok r
 
 /-! ## streams -/
@@ -404,9 +433,6 @@ def netWrite : List SEv → Bytes → Option Nat → Nat → Bytes → Bytes × 
     | .error e => (sent, .error e)
     | .ok now' => netWrite rest (x :: xs) exp now' sent
 
-/-- big-endian value of an octet string (`struct.unpack("!H", …)` on two octets) -/
-def beVal (b : Bytes) : Nat := b.foldl (fun a x => a * 256 + x) 0
-
 /-- `len(what).to_bytes(2, "big")` -/
 def be16 (n : Nat) : Bytes := [n / 256 % 256, n % 256]
 
@@ -427,28 +453,33 @@ structure TRet where
   rest : List REv
   deriving DecidableEq, Repr
 
-/-- `receive_tcp`: frame, then `from_wire(…, ignore_trailing=…)` (no `raise_on_truncation`).
-`coe` = `continue_on_error` (only `dns.asyncquery.receive_tcp(ignore_errors=True)` sets it). -/
-def receiveTcp (parse : Bytes → Wire) (ignoreTrailing : Bool) (coe : Bool) (evs : List REv) (exp : Option Nat) (now : Nat) :
+/-- the parsing half of `receive_tcp`: `from_wire(frame, ignore_trailing=…)` (no `raise_on_truncation`) -/
+def parseFrame (body : Bytes → Body) (ignoreTrailing coe : Bool) (frame : Bytes) : Except Err Msg :=
+  match fromWire ⟨frame, body frame⟩ ignoreTrailing false coe with
+  | .error (.truncated _) => .error .truncated
+  | .error .formError => .error .formError
+  | .error .other => .error .otherParse
+  | .ok m => .ok m
+
+/-- `dns.query.receive_tcp`. -/
+def receiveTcp (body : Bytes → Body) (ignoreTrailing : Bool) (evs : List REv) (exp : Option Nat) (now : Nat) :
     Except Err TRet :=
   match receiveFrame evs exp now with
   | .error e => .error e
   | .ok (frame, rest, now1) =>
-    match fromWire (parse frame) ignoreTrailing false coe with
-    | .error (.truncated _) => .error .truncated
-    | .error .formError => .error .formError
-    | .error .other => .error .otherParse
+    match parseFrame body ignoreTrailing false frame with
+    | .error e => .error e
     | .ok m => .ok ⟨m, frame, now1, rest⟩
 
 /-- `dns.query.tcp(q, where, timeout, …, sock=…)`; `qwire` is `q.to_wire()`.
 First component: octets accepted by the socket. -/
-def tcp (q : Msg) (qwire : Bytes) (timeout : Option Nat) (ignoreTrailing : Bool) (parse : Bytes → Wire)
+def tcp (q : Msg) (qwire : Bytes) (timeout : Option Nat) (ignoreTrailing : Bool) (body : Bytes → Body)
     (sevs : List SEv) (revs : List REv) (now : Nat) : Bytes × Except Err TRet :=
   let exp := expiration timeout now
   match sendTcp qwire sevs exp now with
   | (sent, .error e) => (sent, .error e)
   | (sent, .ok (_, now1)) =>
-    match receiveTcp parse ignoreTrailing false revs exp now1 with
+    match receiveTcp body ignoreTrailing revs exp now1 with
     | .error e => (sent, .error e)
     | .ok r => if !isResponse q r.msg then (sent, .error .badResponse) else (sent, .ok r)
 
@@ -458,5 +489,144 @@ def stream : List REv → Bytes
   | .data d :: rest => d ++ stream rest
   | .block _ :: rest => stream rest
   | .eof :: rest => stream rest
+
+/-! ## `udp_with_fallback` -/
+
+structure FRet where
+  msg : Msg
+  usedTcp : Bool
+  time : Nat
+  deriving DecidableEq, Repr
+
+/-- `dns.query.udp_with_fallback(q, where, timeout, …, udp_sock=…, tcp_sock=…)`: `udp()` with
+`raise_on_truncation=True`; on `Truncated` (only), `tcp()` with the same query and a fresh deadline.
+First component: the octets the TCP socket accepted. -/
+def udpWithFallback (q : Msg) (qwire : Bytes) (af : Nat) (dest : Addr) (timeout : Option Nat) (o : UOpts)
+    (sendBlocks : List Nat) (script : List UEv) (body : Bytes → Body) (sevs : List SEv) (revs : List REv) (now : Nat) :
+    Bytes × Except Err FRet :=
+  match udp false q af dest timeout { o with raiseOnTruncation := true } sendBlocks script now with
+  | .ok r => ([], .ok ⟨r.msg, false, r.recvTime⟩)
+  | .error ⟨.truncated, _, t⟩ =>
+    match tcp q qwire timeout o.ignoreTrailing body sevs revs t with
+    | (sent, .ok r) => (sent, .ok ⟨r.msg, true, r.recvTime⟩)
+    | (sent, .error e) => (sent, .error e)
+  | .error f => ([], .error f.err)
+
+/-! ## `dns.asyncquery`: the same exchanges over a backend socket that does its own waiting
+
+The backend calls take a *timeout* (`_timeout(expiration)` = time left, floored at 0), computed afresh before every
+call; inside one call the backend spends that budget on however many would-block waits it meets. -/
+
+/-- `_timeout(expiration)` -/
+def timeoutOf (exp : Option Nat) (now : Nat) : Option Nat := exp.map (· - now)
+
+/-- one would-block wait inside a backend call with `budget` left -/
+def waitB (budget : Option Nat) (now dt : Nat) : Except Err (Option Nat × Nat) :=
+  match budget with
+  | none => .ok (none, now + dt)
+  | some b => if b ≤ dt then .error .timeout else .ok (some (b - dt), now + dt)
+
+def starvedB (budget : Option Nat) : Err := if budget.isSome then .timeout else .exhausted
+
+/-- `dns.asyncquery._read_exactly(sock, count, expiration)` with the backend's `recv(count, timeout)` inlined:
+`budget` is what is left of the timeout of the `recv` call in progress; every new `recv` call gets
+`_timeout(expiration)` afresh. -/
+def readExactlyA (exp : Option Nat) : List REv → Nat → Option Nat → Nat → Bytes → Except Err (Bytes × List REv × Nat)
+  | evs, 0, _, now, acc => .ok (acc, evs, now)
+  | [], _ + 1, budget, _, _ => .error (starvedB budget)
+  | .eof :: _, _ + 1, _, _, _ => .error .eof
+  | .block dt :: rest, c + 1, budget, now, acc =>
+    match waitB budget now dt with
+    | .error e => .error e
+    | .ok (b', now') => readExactlyA exp rest (c + 1) b' now' acc
+  | .data d :: rest, c + 1, _, now, acc =>
+    if d.isEmpty then .error .eof
+    else if d.length ≤ c + 1 then readExactlyA exp rest (c + 1 - d.length) (timeoutOf exp now) now (acc ++ d)
+    else .ok (acc ++ d.take (c + 1), .data (d.drop (c + 1)) :: rest, now)
+
+def readExactly (evs : List REv) (count : Nat) (exp : Option Nat) (now : Nat) : Except Err (Bytes × List REv × Nat) :=
+  readExactlyA exp evs count (timeoutOf exp now) now []
+
+/-- framing half of `dns.asyncquery.receive_tcp` -/
+def receiveFrameA (evs : List REv) (exp : Option Nat) (now : Nat) : Except Err (Bytes × List REv × Nat) :=
+  match readExactly evs ConstsC18.lenPrefix exp now with
+  | .error e => .error e
+  | .ok (ld, evs1, now1) => readExactly evs1 (beVal ld) exp now1
+
+/-- `dns.asyncquery.receive_tcp(…, ignore_trailing, ignore_errors)`: `continue_on_error=ignore_errors` -/
+def receiveTcpA (body : Bytes → Body) (ignoreTrailing ignoreErrors : Bool) (evs : List REv) (exp : Option Nat) (now : Nat) :
+    Except Err TRet :=
+  match receiveFrameA evs exp now with
+  | .error e => .error e
+  | .ok (frame, rest, now1) =>
+    match parseFrame body ignoreTrailing ignoreErrors frame with
+    | .error e => .error e
+    | .ok m => .ok ⟨m, frame, now1, rest⟩
+
+/-- backend `sendall(data, timeout)` / `sendto(data, dest, timeout)`: waits (`blocks`) within the budget, then
+everything is accepted at once (contract of the backend, not dnspython code) -/
+def sendB : List Nat → Option Nat → Nat → Except (Err × Nat) Nat
+  | [], _, now => .ok now
+  | dt :: rest, budget, now =>
+    match waitB budget now dt with
+    | .error e => .error (e, match budget with | some b => now + b | none => now)
+    | .ok (b', now') => sendB rest b' now'
+
+/-- `dns.asyncquery.send_tcp` -/
+def sendTcpA (wire : Bytes) (blocks : List Nat) (exp : Option Nat) (now : Nat) : Bytes × Except Err Nat :=
+  match sendB blocks (timeoutOf exp now) now with
+  | .error (e, _) => ([], .error e)
+  | .ok now1 => (be16 wire.length ++ wire, .ok now1)
+
+/-- `dns.asyncquery.tcp(q, where, timeout, …, sock=…)` -/
+def tcpA (q : Msg) (qwire : Bytes) (timeout : Option Nat) (ignoreTrailing : Bool) (body : Bytes → Body)
+    (blocks : List Nat) (revs : List REv) (now : Nat) : Bytes × Except Err TRet :=
+  let exp := expiration timeout now
+  match sendTcpA qwire blocks exp now with
+  | (sent, .error e) => (sent, .error e)
+  | (sent, .ok now1) =>
+    match receiveTcpA body ignoreTrailing false revs exp now1 with
+    | .error e => (sent, .error e)
+    | .ok r => if !isResponse q r.msg then (sent, .error .badResponse) else (sent, .ok r)
+
+/-- `dns.asyncquery.receive_udp` with the backend's `recvfrom(size, timeout)` inlined (`budget` = what is left
+of the timeout of the `recvfrom` call in progress). -/
+def receiveUdpA (coe : Bool) (af : Nat) (dest : Option Addr) (exp : Option Nat) (o : UOpts) (query : Option Msg) :
+    List UEv → Option Nat → Nat → Nat → Except Fail URet
+  | [], budget, now, idx => .error ⟨starvedB budget, idx, match budget with | some b => now + b | none => now⟩
+  | .block dt :: rest, budget, now, idx =>
+    match waitB budget now dt with
+    | .error e => .error ⟨e, idx, match budget with | some b => now + b | none => now⟩
+    | .ok (b', now') => receiveUdpA coe af dest exp o query rest b' now' idx
+  | .dgram src w :: rest, _, now, idx =>
+    match judge coe af dest o query src w with
+    | .raise e => .error ⟨e, idx + 1, now⟩
+    | .skip => receiveUdpA coe af dest exp o query rest (timeoutOf exp now) now (idx + 1)
+    | .accept r => .ok ⟨idx, r, src, now⟩
+
+/-- `dns.asyncquery.udp(q, where, timeout, …, sock=…)` -/
+def udpA (coe : Bool) (q : Msg) (af : Nat) (dest : Addr) (timeout : Option Nat) (o : UOpts)
+    (sendBlocks : List Nat) (script : List UEv) (now : Nat) : Except Fail URet :=
+  let exp := expiration timeout now
+  match sendB sendBlocks (timeoutOf exp now) now with
+  | .error (e, t) => .error ⟨e, 0, t⟩
+  | .ok now1 =>
+    match receiveUdpA coe af (some dest) exp o (some q) script (timeoutOf exp now1) now1 0 with
+    | .error f => .error f
+    | .ok r =>
+      if !(o.ignoreErrors || isResponse q r.msg) then .error ⟨.badResponse, r.idx + 1, r.recvTime⟩
+      else .ok r
+
+/-- `dns.asyncquery.udp_with_fallback` -/
+def udpWithFallbackA (q : Msg) (qwire : Bytes) (af : Nat) (dest : Addr) (timeout : Option Nat) (o : UOpts)
+    (sendBlocks : List Nat) (script : List UEv) (body : Bytes → Body) (tcpBlocks : List Nat) (revs : List REv) (now : Nat) :
+    Bytes × Except Err FRet :=
+  match udpA false q af dest timeout { o with raiseOnTruncation := true } sendBlocks script now with
+  | .ok r => ([], .ok ⟨r.msg, false, r.recvTime⟩)
+  | .error ⟨.truncated, _, t⟩ =>
+    match tcpA q qwire timeout o.ignoreTrailing body tcpBlocks revs t with
+    | (sent, .ok r) => (sent, .ok ⟨r.msg, true, r.recvTime⟩)
+    | (sent, .error e) => (sent, .error e)
+  | .error f => ([], .error f.err)
 
 end Model.Net
